@@ -1253,6 +1253,17 @@ def _loop_of(brk, loop):
     return True
 
 
+def dotted_name(e):
+    parts = []
+    while isinstance(e, ast.Attribute):
+        parts.append(e.attr)
+        e = e.value
+    if isinstance(e, ast.Name):
+        parts.append(e.id)
+        return ".".join(reversed(parts))
+    return None
+
+
 _SETUP_METHODS = ("__init__", "__attrs_post_init__", "wire")
 
 
@@ -1271,6 +1282,13 @@ def _stable_attrs_by_class(mod):
             for t in ast.walk(f):
                 if isinstance(t, ast.Attribute) and isinstance(t.ctx, (ast.Store, ast.Del)) and isinstance(t.value, ast.Name) and t.value.id == "self":
                     (setup if f.name in _SETUP_METHODS else later).add(t.attr)
+        # attrs fields (`_noise = attrib(..)`): set by the generated __init__
+        for st in c.body:
+            if isinstance(st, (ast.Assign, ast.AnnAssign)) and isinstance(getattr(st, "value", None), ast.Call) \
+                    and (dotted_name(st.value.func) or "").split(".")[-1] in ("attrib", "ib", "field"):
+                for t in (st.targets if isinstance(st, ast.Assign) else [st.target]):
+                    if isinstance(t, ast.Name):
+                        setup.add(t.id)
         out[c.name] = setup - later
     return out
 
